@@ -120,7 +120,7 @@ def run_lib(ctx, drv, items, aliases, dist):
             return
         cases = [(rp["via"], rp["type"], rp["name"], rp["value"])]
     else:
-        per_item = ctx.n(4, 60)
+        per_item = ctx.n(4, 16)
         for n, t, _ in items:
             for k in range(per_item):
                 txt = rand_text(rng, t, k % 2 == 0)
@@ -140,7 +140,7 @@ def run_lib(ctx, drv, items, aliases, dist):
     # a parsable text reaches the item's callback, which may end the process: those cases run in a forked child
     lines = [" ".join(map(str, [1 if (n in known and m != [0]) else 0, via, t] + enc_str(n) + enc_str(v)))
              for (via, t, n, v), m in zip(cases, model)]
-    rc, out, err = fw.run_lines(drv, ["lib"], lines, timeout=900)
+    rc, out, err = fw.run_lines(drv, ["lib"], lines, timeout=1800)
     if rc != 0 or len(out) != len(cases):
         i = min(len(out), len(cases) - 1)
         ctx.fail("driver-crash", "xbt1_config lib ended with rc=%d after %d/%d cases: %s" % (rc, len(out), len(cases), err[-300:]),
@@ -237,7 +237,7 @@ def run_ops(ctx, drv, dist):
         cases = [[tuple(o) for o in rp["ops"]]]
     else:
         cases = [list(c) for c in CORPUS_OPS]
-        for _ in range(ctx.n(800, 40000)):
+        for _ in range(ctx.n(800, 15000)):
             n = rng.randint(1, 8)
             cases.append([gen_op(rng, k == n - 1) for k in range(n)])
     flat = [[x for (k, n, s) in c for x in [k] + enc_str(n) + enc_str(s)] for c in cases]
